@@ -164,6 +164,43 @@ def run(ctx):
         ctx.violation({'kind': 'checksum-default'}, {}, 'compute_file_checksum default arguments wrong')
     ctx.cov['evaluations'] += n
     ctx.stage('read-loop', cases=n, read_pattern_drift=drift[0])
+    # the digest of a file does not depend on who else is computing one: four threads, each over its own files
+    import sys
+    import threading
+    files = []
+    for t in range(8):
+        p = os.path.join(os.path.dirname(fpath), 'c20_conc_%d.bin' % t)
+        content = rnd.randbytes(rnd.choice([1, 70000, 300001, 1 << 20]))
+        with open(p, 'wb') as fh:
+            fh.write(content)
+        files.append((p, hashlib.sha256(content).hexdigest(), hashlib.md5(content).hexdigest()))
+    wrong = []
+
+    def worker(t):
+        for rnd_ in range(6):
+            for p, sha, md in files[t % 4::4] + files[(t + 1) % 4::4]:
+                try:
+                    d = (fileutils.compute_file_checksum(p, read_chunksize=(65536, 4096, 100000)[rnd_ % 3]),
+                         fileutils.compute_file_checksum(p, algorithm='md5'))
+                except Exception as e:      # noqa
+                    d = ('EXC:' + type(e).__name__, None)
+                if d != (sha, md):
+                    wrong.append((p, d))
+    old_si = sys.getswitchinterval()
+    sys.setswitchinterval(1e-6)
+    try:
+        ths = [threading.Thread(target=worker, args=(t,)) for t in range(4)]
+        [t.start() for t in ths]
+        [t.join() for t in ths]
+    finally:
+        sys.setswitchinterval(old_si)
+    for p, sha, md in files:
+        os.unlink(p)
+    if wrong:
+        ctx.violation({'kind': 'checksum-depends-on-concurrent-callers'}, {'wrong_digests': len(wrong), 'of': 4 * 6 * 4 * 2, 'first': repr(wrong[0])[:300]},
+                      'compute_file_checksum from four threads at once: %d digests are not the digest of the content' % len(wrong))
+    ctx.cov['evaluations'] += 4 * 6 * 4 * 2
+    ctx.stage('checksums-from-four-threads', digests=4 * 6 * 4 * 2, wrong=len(wrong))
     if drift[0]:
         ctx.note('spec drift (not a violation): %d checksum runs read the file in a pattern other than Files!Read while the digest is right' % drift[0])
     rejected, inv, r = traces.validate(ctx, 'Trace_Files', batch, 'reads')
@@ -186,6 +223,12 @@ def run(ctx):
             got = 'EXC:' + type(e).__name__
         m += 1
         want = (content[ref['start']:ref['start'] + ref['len']], ref['start'])
+        if got == want and (type(got) is not tuple or type(got[0]) is not bytes or type(got[1]) is not int):
+            # the kinds of the pair are not in the statement (its values are); the module returns (bytes, int)
+            ctx.beyond('Files', {'kind': 'last_bytes-result-kinds', 'got': [type(got).__name__] + [type(x).__name__ for x in got]},
+                       {'size': size, 'num': num, 'observed': repr(got)[:200]},
+                       'last_bytes(size=%d, %d) returns %s of (%s); the module returns a tuple of (bytes, int)' % (
+                           size, num, type(got).__name__, ', '.join(type(x).__name__ for x in got)))
         if got != want:
             ctx.violation({'kind': 'last_bytes', 'num_ge_size': num >= size}, {'size': size, 'num': num, 'observed': repr(got), 'expected': repr(want)},
                           'last_bytes(size=%d, %d) -> %r, specification %r' % (size, num, got, want))
